@@ -23,14 +23,14 @@ WORLD_OF = {
     "C03": [("resources", 0.93), ("components", 0.07)],
     "C04": "resources",
     "C18": [("resources", 0.88), ("components", 0.12)],
-    "C19": "resources",
+    "C19": [("resources", 0.94), ("components", 0.06)],
     "C05": "components",
     "C06": "components",
     "C07": "components",
     "C14": "components",
     "C08": "tasks",
     "C09": [("tasks", 0.92), ("components", 0.08)],
-    "C10": "events",
+    "C10": [("events", 0.93), ("resources", 0.07)],
     "C11": [("events", 0.93), ("components", 0.07)],
     "C15": "apprunner",
 }
